@@ -439,6 +439,17 @@ func genC08(rng *hx.Rng, tier string, w *hx.Writer) error {
 			bt := bt
 			mk(func(p *plainDesc) { p.t = bt; p.sid.t = bt }, "no-approve", "threshold-out-of-range")
 		}
+		// a deal that is consistent in itself (share on the committed polynomial, session id derived from
+		// these very commitments) but whose polynomial has more coefficients than there are members, or
+		// a single one: the threshold is out of range whatever the deal says about itself
+		for _, bt := range []int{1, n + 1, n + 2, n + 3} {
+			bt := bt
+			mk(func(p *plainDesc) {
+				c2 := randCoeffs(rng, bt, BnQ)
+				p.t, p.commits, p.share = bt, c2, refEval(c2, p.idx, BnQ)
+				p.sid = sidDesc{dealer: dl.dealer, members: members, commits: c2, t: bt}
+			}, "no-approve", "threshold-out-of-range-consistent-deal")
+		}
 		mk(func(p *plainDesc) { p.idx = (r + 1) % n; p.share = refEval(dl.coeffs, p.idx, BnQ) }, "reject", "index-of-other-member")
 		mk(func(p *plainDesc) { p.idx = n + 3 }, "reject", "index-out-of-range")
 		mk(func(p *plainDesc) {
